@@ -39,6 +39,7 @@ def fl(s):
 
 # ---------------------------------------------------------------- hash pin
 _RANK = {"task": {}, "comp": {}}
+EVENTS = []
 _orig_hash = {}
 
 
@@ -58,12 +59,22 @@ def pin_hashes():
     _orig_hash["c"] = BaseComponent.__hash__
     BaseTask.__hash__ = th
     BaseComponent.__hash__ = ch
+    # placement events (C13 d): every non-None placement of a component object
+    orig_set = BaseComponent.set_placed_workplace
+    _orig_hash["set"] = orig_set
+
+    def set_pw(self, placed_workplace, set_to_all_children=True):
+        if placed_workplace is not None:
+            EVENTS.append((self.ID, placed_workplace.ID))
+        return orig_set(self, placed_workplace, set_to_all_children=set_to_all_children)
+    BaseComponent.set_placed_workplace = set_pw
 
 
 def unpin_hashes():
     if _orig_hash:
         BaseTask.__hash__ = _orig_hash.pop("t")
         BaseComponent.__hash__ = _orig_hash.pop("c")
+        BaseComponent.set_placed_workplace = _orig_hash.pop("set")
     _RANK["task"].clear()
     _RANK["comp"].clear()
 
@@ -271,7 +282,14 @@ def run_ops(case, want_snaps=True, ops=None, built=None):
         rec = {"op": op, "snaps": [], "exc": None, "warn": []}
         p = b.project
 
+        rec["events"] = []
+
         def observer(project, phase, working, rec=rec, op=op):
+            if phase == "updated":
+                del EVENTS[:]
+            if phase == "allocated":
+                rec["events"] += [(project.time, idx_of("c", c), idx_of("wp", w)) for (c, w) in EVENTS]
+                del EVENTS[:]
             if want_snaps:
                 rec["snaps"].append((project.time, phase, working, snap(project)))
             cr = op.get("crash")
